@@ -73,22 +73,36 @@ pub fn upload_run(args: &[String]) -> anyhow::Result<()> {
             std::fs::write(&p, rng.bytes(n))?;
             unrelated.push(u.to_string());
         }
-        let block: u32 = match rng.below(6) {
+        // one upload in five sits at the length switches: answers whose payload makes the body 254 / 255 / 256 bytes long or a
+        // TLV length 127 / 128, 255 / 256 (block size or last block of 100..135 / 225..265 bytes)
+        let at_switch = rng.chance(1, 5);
+        let switch_len = |rng: &mut Rng| -> u32 { if rng.chance(1, 2) { rng.range(100, 135) as u32 } else { rng.range(225, 265) as u32 } };
+        let block: u32 = if at_switch && rng.chance(1, 2) { switch_len(&mut rng) } else { match rng.below(6) {
             0 => 1,
             1 => rng.range(2, 16) as u32,
             2 => rng.range(17, 1024) as u32,
             3 => 1024,
             4 => rng.range(1025, 32768) as u32,
             _ => 32768,
-        };
+        } };
+        if at_switch {
+            // a file whose last block has such a length
+            let tail = switch_len(&mut rng) as usize;
+            let k = rng.range(0, 3) as usize;
+            let size = k * block as usize + tail.min(block as usize);
+            let content = rng.bytes(size);
+            let (path, _, _) = files[0].clone();
+            std::fs::write(dir.join(&path), &content)?;
+            files[0].2 = content;
+        }
         // the PT's script: acknowledgement, data requests (good and bad), then completion or abort
         let mut frames: Vec<Value> = vec![json!({"bytes": [0x80, 0x00, 0x00], "trunc": false})];
         let nreq = rng.range(0, 12);
         let mut seq_off: std::collections::HashMap<u8, u32> = Default::default();
         for _ in 0..nreq {
-            let (_, id, content) = &files[rng.below(files.len() as u64) as usize];
+            let (_, id, content) = &files[if at_switch { 0 } else { rng.below(files.len() as u64) as usize }];
             let size = content.len() as u32;
-            let b = match rng.below(16) {
+            let b = match if at_switch { 11 + rng.below(5) } else { rng.below(16) } {
                 0 => {
                     // an id that was not announced
                     let other = PATHS.iter().map(|p| p.1).find(|i| !files.iter().any(|f| f.1 == *i)).unwrap_or(0x77);
@@ -122,8 +136,10 @@ pub fn upload_run(args: &[String]) -> anyhow::Result<()> {
         if rng.chance(1, 3) {
             frames.push(json!({"bytes": request(Some(files[0].1), Some(0), true, true), "trunc": false}));
         }
+        // the connection takes everything at once, or only so many bytes per write
+        let wchunk = *rng.pick(&[0u64, 0, 0, 1, 100, 1500, 16384]);
         let case = json!({"cmd": "WriteFile", "req": [0x08, 0x14, 0x00], "frames": frames, "dir": dir.to_str().unwrap(), "block": block,
-                          "password": 123456});
+                          "password": 123456, "wchunk": wchunk});
         let mut out = run_case(&rt, &case);
         // the frames the code wrote: the announcement and the data blocks
         let written = out["written"].as_array().cloned().unwrap_or_default();
